@@ -46,6 +46,10 @@ func (m *Machine) callForeign(caller *frame, pos token.Pos, fn *ssa.Function, ar
 		m.foreign[name]++
 		return f(m, caller, pos, args)
 	}
+	if f, ok := vfsTab[name]; ok {
+		m.foreign[name+" (virtual FS)"]++
+		return f(m, caller, pos, args)
+	}
 	if strings.HasSuffix(name, ".init") {
 		return nil // dependency initialisers are not run (package state of deps is opaque)
 	}
@@ -550,12 +554,29 @@ func bothConc(a, b value) (string, string, bool) {
 	return x, y, ok1 && ok2
 }
 
+// prefixEq / suffixEq: s starts / ends with p, both possibly symbolic (their
+// lengths are concrete).
+func (m *Machine) prefixEq(s, p []*sym.Term) *sym.Term {
+	if len(s) < len(p) {
+		return m.st.False()
+	}
+	return m.strEq(s[:len(p)], p)
+}
+
+func (m *Machine) suffixEq(s, p []*sym.Term) *sym.Term {
+	if len(s) < len(p) {
+		return m.st.False()
+	}
+	return m.strEq(s[len(s)-len(p):], p)
+}
+
 func fHasPrefix(m *Machine, fr *frame, pos token.Pos, args []value) value {
 	if x, y, ok := bothConc(args[0], args[1]); ok {
 		return strings.HasPrefix(x, y)
 	}
 	s, _ := m.strTerms(args[0])
-	return m.unsym(m.hasPrefixTerm(s, concStr(args[1], "strings.HasPrefix")), types.Bool)
+	p, _ := m.strTerms(args[1])
+	return m.unsym(m.prefixEq(s, p), types.Bool)
 }
 
 func fHasSuffix(m *Machine, fr *frame, pos token.Pos, args []value) value {
@@ -563,16 +584,17 @@ func fHasSuffix(m *Machine, fr *frame, pos token.Pos, args []value) value {
 		return strings.HasSuffix(x, y)
 	}
 	s, _ := m.strTerms(args[0])
-	return m.unsym(m.hasSuffixTerm(s, concStr(args[1], "strings.HasSuffix")), types.Bool)
+	p, _ := m.strTerms(args[1])
+	return m.unsym(m.suffixEq(s, p), types.Bool)
 }
 
 func fTrimPrefix(m *Machine, fr *frame, pos token.Pos, args []value) value {
 	if x, y, ok := bothConc(args[0], args[1]); ok {
 		return strings.TrimPrefix(x, y)
 	}
-	p := concStr(args[1], "strings.TrimPrefix")
 	s, _ := m.strTerms(args[0])
-	if m.decide(m.hasPrefixTerm(s, p)) {
+	p, _ := m.strTerms(args[1])
+	if m.decide(m.prefixEq(s, p)) {
 		return mkStr(s[len(p):])
 	}
 	return args[0]
@@ -582,9 +604,9 @@ func fTrimSuffix(m *Machine, fr *frame, pos token.Pos, args []value) value {
 	if x, y, ok := bothConc(args[0], args[1]); ok {
 		return strings.TrimSuffix(x, y)
 	}
-	p := concStr(args[1], "strings.TrimSuffix")
 	s, _ := m.strTerms(args[0])
-	if m.decide(m.hasSuffixTerm(s, p)) {
+	p, _ := m.strTerms(args[1])
+	if m.decide(m.suffixEq(s, p)) {
 		return mkStr(s[:len(s)-len(p)])
 	}
 	return args[0]
@@ -1197,14 +1219,48 @@ func fParseBool(m *Machine, fr *frame, pos token.Pos, args []value) value {
 	return tuple{b, iface{}}
 }
 
+// byteIs decides whether a (possibly symbolic) byte equals c.
+func (m *Machine) byteIs(b *sym.Term, c byte) bool {
+	return m.decide(m.st.Eq(b, m.st.BVC(8, uint64(c))))
+}
+
+// fFilepathBase / fFilepathExt on symbolic paths: exact scans from the end,
+// each byte test a solver-decided fork (Unix separators).
 func fFilepathBase(m *Machine, fr *frame, pos token.Pos, args []value) value {
-	return filepath.Base(concStr(args[0], "filepath.Base"))
+	if s, ok := args[0].(string); ok {
+		return filepath.Base(s)
+	}
+	b, _ := m.strTerms(args[0])
+	// strip trailing slashes
+	for len(b) > 0 && m.byteIs(b[len(b)-1], '/') {
+		b = b[:len(b)-1]
+	}
+	if len(b) == 0 {
+		return "/"
+	}
+	i := len(b) - 1
+	for i >= 0 && !m.byteIs(b[i], '/') {
+		i--
+	}
+	return mkStr(b[i+1:])
 }
 func fFilepathDir(m *Machine, fr *frame, pos token.Pos, args []value) value {
 	return filepath.Dir(concStr(args[0], "filepath.Dir"))
 }
 func fFilepathExt(m *Machine, fr *frame, pos token.Pos, args []value) value {
-	return filepath.Ext(concStr(args[0], "filepath.Ext"))
+	if s, ok := args[0].(string); ok {
+		return filepath.Ext(s)
+	}
+	b, _ := m.strTerms(args[0])
+	for i := len(b) - 1; i >= 0; i-- {
+		if m.byteIs(b[i], '/') {
+			break
+		}
+		if m.byteIs(b[i], '.') {
+			return mkStr(b[i:])
+		}
+	}
+	return ""
 }
 func fFilepathJoin(m *Machine, fr *frame, pos token.Pos, args []value) value {
 	var parts []string
@@ -1242,7 +1298,6 @@ func init() {
 		"gopkg.in/yaml.v3.Unmarshal": fYamlUnmarshal,
 		"os.Getenv":                 fGetenv,
 		"os.Environ":                fEnviron,
-		"os.OpenRoot":               fOpenRoot,
 		"strconv.ParseBool":         fParseBool,
 		"strconv.ParseInt":          fParseInt,
 		"strconv.ParseFloat":        fParseFloat,
@@ -1509,7 +1564,12 @@ var b64Encodings = map[string]*base64.Encoding{
 
 // foreignGlobalInit gives package-level variables of dependencies that the
 // code under test reads a meaningful identity (dependency init is not run).
+var osErrNotExistObj = &errObj{msg: "file does not exist"}
+
 func foreignGlobalInit(pkgPath, name string) (value, bool) {
+	if pkgPath == "os" && name == "ErrNotExist" {
+		return iface{t: errTypeForGlobals, v: osErrNotExistObj}, true
+	}
 	if pkgPath == "encoding/base64" {
 		if e, ok := b64Encodings[name]; ok {
 			return opaquePtr("b64enc", &b64enc{name: name, enc: e}), true
